@@ -1,15 +1,21 @@
 import PgVerif.Model.LR
 /-!
-Model of the GLR driver, `GLRParser.parse` (`parglare/glr.py`), on inputs where
-every frontier sees one token (no lexical ambiguity between the active heads;
-otherwise the model answers `lexAmbiguous`): graph-structured stack with heads
-keyed by state per frontier, links (`Parent`) keyed by root with their packed
-alternatives, `_find_lookaheads` (heads popped last-first, heads without a
+Model of the GLR driver, `GLRParser.parse` (`parglare/glr.py`), with lexical
+ambiguity and `consume_input` on or off: graph-structured stack with heads keyed
+by state per sub-frontier, links (`Parent`) keyed by root (frontier, state,
+position) with their packed alternatives, `_find_lookaheads` (heads popped
+last-first, `_skipws` moving the head, one clone per further token sharing the
+links, sub-frontiers per token symbol processed last-first, heads without a
 lookahead die), the actor loop over the LIFO `_for_actor`, `_do_reductions` with
 its LIFO path search, the per-path `traversed` flag and the `states_traversed`
 cache, `_reduce` with new-head creation or link creation/merge and the revisit
 of already processed heads through limited (`update_parent`) reductions,
-`_do_shifts` (LIFO, one shifted head per target state), accepted heads.
+`_do_shifts` (stable sort by token end, only the minimal end is shifted in a round,
+the rest stays queued; one shifted head per target state; cloned or fresh link),
+accepted heads of every round. One thing is not modelled: the iteration order of
+the Python `set` `to_revisit`; it is ascending when all its members are below 8
+(no collisions in CPython's table) and the model answers `orderSensitive` when a
+revisit set has two or more members one of which is 8 or more.
 Everything that decides *which* alternatives end up in the forest is modelled,
 including the restrictions that lose derivations on the pinned tree (F-GLR-1/2)
 and pack duplicates (F-GLR-3); the order of alternatives inside a link is kept
@@ -22,6 +28,10 @@ structure GNode where
   st  : Nat
   fr  : Nat
   pos : Nat
+  /-- `token_ahead` -/
+  tok : Option Tok := none
+  /-- `parents` (own dict; a clone starts with a copy), link ids in insertion order -/
+  plinks : List Nat := []
 deriving Repr, Inhabited
 
 inductive Poss where
@@ -49,32 +59,53 @@ structure GState where
   /-- `_states_traversed`: state ↦ states of the heads whose reduction paths went through it. -/
   traversed  : List (Nat × List Nat) := []
   accepted   : List Nat := []
-  tokTerm    : Nat := 0
-  tokS       : Nat := 0
-  tokLen     : Nat := 0
   /-- a goto was missing (the Python code would raise KeyError) -/
   crash      : Bool := false
+  /-- a revisit set whose Python iteration order the model does not determine -/
+  orderSens  : Bool := false
 deriving Inhabited
 
 def GState.node (s : GState) (i : Nat) : GNode := s.nodes.getD i default
 def GState.link (s : GState) (i : Nat) : GLink := s.links.getD i default
 
-/-- `node.parents.values()`: the links of a head in creation order. -/
-def GState.parents (s : GState) (node : Nat) : List Nat :=
-  (List.range s.links.size).filter (fun i => (s.link i).head == node)
+/-- `node.parents.values()`: the links of a head in insertion order. -/
+def GState.parents (s : GState) (node : Nat) : List Nat := (s.node node).plinks
+
+def tokEq (a b : Option Tok) : Bool :=
+  match a, b with
+  | some x, some y => x.term == y.term && x.s == y.s && x.len == y.len
+  | none, none => true
+  | _, _ => false
+
+/-- `GSSNode.__eq__`: same id (frontier, state) and the same token ahead. -/
+def GState.same (s : GState) (a b : Nat) : Bool :=
+  let A := s.node a
+  let B := s.node b
+  A.fr == B.fr && A.st == B.st && tokEq A.tok B.tok
+
+def GState.tokTerm (s : GState) (n : Nat) : Nat :=
+  match (s.node n).tok with
+  | some t => t.term
+  | none => 0
 
 def GState.headActive (s : GState) (state : Nat) : Option Nat :=
   (s.active.find? (fun x => x.1 == state)).map (·.2)
 
 /-- `GSSNode.create_link`: merge into the link with the same root, or create. -/
 def createLink (s : GState) (head root st en : Nat) (poss : List Poss) : GState × Bool × Nat :=
-  match (s.parents head).find? (fun i => (s.link i).root == root) with
+  let R := s.node root
+  match (s.parents head).find? (fun i =>
+      let r2 := s.node (s.link i).root
+      r2.fr == R.fr && r2.st == R.st && r2.pos == R.pos) with
   | some i =>
     let l := s.link i
     ({ s with links := s.links.setIfInBounds i { l with poss := l.poss ++ poss } }, false, i)
   | none =>
-    ({ s with links := s.links.push { head := head, root := root, s := st, e := en, poss := poss } },
-      true, s.links.size)
+    let lid := s.links.size
+    let H := s.node head
+    ({ s with links := s.links.push { head := head, root := root, s := st, e := en, poss := poss },
+              nodes := s.nodes.setIfInBounds head { H with plinks := H.plinks ++ [lid] } },
+      true, lid)
 
 def addTraversed (tr : List (Nat × List Nat)) (k v : Nat) : List (Nat × List Nat) :=
   match tr.find? (fun x => x.1 == k) with
@@ -120,11 +151,14 @@ mutual
                 let pending := s1.forActor.map (fun h => (s1.node h).st)
                 let toRevisit := sortNat ((trs.filter (fun x => activeStates.contains x)).filter
                   (fun x => !pending.contains x)).eraseDups
+                let s1 := if decide (2 ≤ toRevisit.length) && toRevisit.any (fun x => decide (8 ≤ x))
+                  then { s1 with orderSens := true } else s1
+                let term := s1.tokTerm head
                 toRevisit.foldl (fun acc rs =>
                   match acc.headActive rs with
                   | none => acc
                   | some rh =>
-                    (T.actions rs acc.tokTerm).foldl (fun acc2 a =>
+                    (T.actions rs term).foldl (fun acc2 a =>
                       match a with
                       | .reduce p => doReductions g T fuel acc2 rh p (some lid)
                       | _ => acc2) acc) s1
@@ -132,7 +166,7 @@ mutual
           | none =>
             let h := s.node head
             let nh := s.nodes.size
-            let s1 := { s with nodes := s.nodes.push { st := state, fr := h.fr, pos := h.pos } }
+            let s1 := { s with nodes := s.nodes.push { st := state, fr := h.fr, pos := h.pos, tok := h.tok } }
             let (s2, _, _) := createLink s1 nh root st en poss
             { s2 with forActor := nh :: s2.forActor, active := s2.active ++ [(state, nh)] }
 
@@ -159,7 +193,7 @@ mutual
       let s0 := if (s.node fr.node).fr == h.fr
         then { s with traversed := addTraversed s.traversed (s.node fr.node).st h.st } else s
       let viaUpd := match upd with
-        | some u => (s0.link u).head == fr.node
+        | some u => s0.same (s0.link u).head fr.node
         | none => false
       let plist := match upd with
         | some u => if viaUpd then [u] else s0.parents fr.node
@@ -184,7 +218,7 @@ end
 
 /-- `_actor`. -/
 def actor (g : Grammar) (T : Table) (fuel : Nat) (s : GState) (head : Nat) : GState :=
-  (T.actions (s.node head).st s.tokTerm).foldl (fun acc a =>
+  (T.actions (s.node head).st (s.tokTerm head)).foldl (fun acc a =>
     match a with
     | .shift s' => { acc with forShifter := acc.forShifter ++ [(head, s')] }
     | .reduce p => doReductions g T fuel acc head p none
@@ -197,82 +231,132 @@ def actorLoop (g : Grammar) (T : Table) (fuel : Nat) : Nat → GState → GState
     | [] => s
     | head :: rest => actorLoop g T fuel n (actor g T fuel { s with forActor := rest } head)
 
-/-- `_do_shifts`: last appended first; one shifted head per target state. -/
-def doShifts (s : GState) (fr : Nat) : GState :=
-  let endp := s.tokS + s.tokLen
-  s.forShifter.reverse.foldl (fun acc (hs : Nat × Nat) =>
-    let (head, toState) := hs
-    let (acc1, sh) := match acc.headActive toState with
-      | some sh => (acc, sh)
+def tokEnd (s : GState) (n : Nat) : Nat :=
+  match (s.node n).tok with
+  | some t => (s.node n).pos + t.len
+  | none => (s.node n).pos
+
+/-- Stable insertion into a list sorted by descending token end. -/
+def insertDesc (s : GState) (x : Nat × Nat) : List (Nat × Nat) → List (Nat × Nat)
+  | [] => [x]
+  | y :: ys => if tokEnd s y.1 < tokEnd s x.1 then x :: y :: ys else y :: insertDesc s x ys
+
+/-- `list.sort(key=end, reverse=True)`: stable, descending. -/
+def sortDesc (s : GState) (l : List (Nat × Nat)) : List (Nat × Nat) :=
+  l.foldl (fun acc x => insertDesc s x acc) []
+
+/-- `_do_shifts`: only the entries with the minimal token end are shifted, last first; the rest
+stays queued. One shifted head per target state; a further link clones the first one when it starts
+where the head stands, else it is a fresh link for the head's own token. -/
+def doShifts (s : GState) : GState :=
+  let sorted := sortDesc s s.forShifter
+  match sorted.getLast? with
+  | none => { s with active := [], forShifter := [] }
+  | some last =>
+    let minEnd := tokEnd s last.1
+    let now := (sorted.filter (fun x => tokEnd s x.1 == minEnd)).reverse
+    let later := sorted.filter (fun x => tokEnd s x.1 != minEnd)
+    now.foldl (fun acc (hs : Nat × Nat) =>
+      let (head, toState) := hs
+      let H := acc.node head
+      let tend := tokEnd acc head
+      let term := acc.tokTerm head
+      match acc.headActive toState with
+      | some sh =>
+        let first := acc.link (((acc.node sh).plinks).headD 0)
+        if first.s == H.pos then (createLink acc sh head first.s first.e first.poss).1
+        else (createLink acc sh head H.pos tend [Poss.term term H.pos tend]).1
       | none =>
         let sh := acc.nodes.size
-        ({ acc with nodes := acc.nodes.push { st := toState, fr := fr, pos := endp },
-                    active := acc.active ++ [(toState, sh)] }, sh)
-    (createLink acc1 sh head s.tokS endp [Poss.term s.tokTerm s.tokS endp]).1)
-    { s with active := [], forShifter := [] }
+        let acc1 := { acc with nodes := acc.nodes.push { st := toState, fr := H.fr + 1, pos := tend },
+                               active := acc.active ++ [(toState, sh)] }
+        (createLink acc1 sh head H.pos tend [Poss.term term H.pos tend]).1)
+      { s with active := [], forShifter := later }
 
 inductive Result where
   | forest (s : GState)
   | syntaxError
-  | lexAmbiguous
+  | orderSensitive
   | crash
   | outOfFuel
 
-/-- One frontier: lookaheads, actor loop, shifts. -/
-def frontier (g : Grammar) (T : Table) (inp : Input) (fuel : Nat) (s : GState) (fr : Nat) :
-    Option GState :=
-  -- `_find_lookaheads`: heads popped last-first; `_skipws` moves the head
-  let heads := s.active.reverse
-  let p2 := fun (n : Nat) => inp.skip (s.node n).pos
-  let toks := heads.map (fun (x : Nat × Nat) => (x, nextTokens T inp true false x.1 (p2 x.2)))
-  if toks.any (fun x => decide (1 < x.2.length)) then none else
-  let alive := toks.filterMap (fun x => match x.2 with | [tok] => some (x.1, tok) | _ => none)
-  match alive with
-  | [] => some { s with active := [], forActor := [], forShifter := [] }
-  | (_, tok0) :: _ =>
-    if alive.any (fun x => x.2.term != tok0.term || x.2.s != tok0.s || x.2.len != tok0.len) then none else
-    let nodes' := alive.foldl (fun (ns : Array GNode) x =>
-      ns.setIfInBounds x.1.2 { (ns.getD x.1.2 default) with pos := tok0.s }) s.nodes
-    let s1 := { s with nodes := nodes', active := alive.map (·.1),
-                       forActor := (alive.map (·.1.2)).reverse, forShifter := [], traversed := [],
-                       tokTerm := tok0.term, tokS := tok0.s, tokLen := tok0.len }
-    let s2 := actorLoop g T fuel fuel s1
-    some (doShifts s2 fr)
+/-- `_find_lookaheads`: heads popped last-first; `_skipws` moves the head; the first token (last of
+the list) stays on the head, every further one gets a clone that shares the links; per token symbol
+a dict state ↦ head in insertion order. -/
+def findLookaheads (T : Table) (inp : Input) (consume lexDis : Bool) (s : GState) :
+    GState × List (Nat × List (Nat × Nat)) :=
+  s.active.reverse.foldl (fun (acc : GState × List (Nat × List (Nat × Nat))) (x : Nat × Nat) =>
+    let (sa, perSym) := acc
+    let (st, node) := x
+    let N := sa.node node
+    let p2 := inp.skip N.pos
+    let sa := { sa with nodes := sa.nodes.setIfInBounds node { N with pos := p2 } }
+    let toks := (nextTokens T inp consume lexDis st p2).reverse
+    let (sb, _, perSym') := toks.foldl
+      (fun (a : GState × Nat × List (Nat × List (Nat × Nat))) (tok : Tok) =>
+        let (sc, cur, ps) := a
+        let C := sc.node cur
+        let (sd, cur') := match C.tok with
+          | none => ({ sc with nodes := sc.nodes.setIfInBounds cur { C with tok := some tok } }, cur)
+          | some t0 =>
+            if tokEq (some t0) (some tok) then (sc, cur)
+            else ({ sc with nodes := sc.nodes.push { C with tok := some tok } }, sc.nodes.size)
+        let ps' := match ps.find? (fun e => e.1 == tok.term) with
+          | some _ => ps.map (fun e => if e.1 == tok.term then
+              (e.1, if e.2.any (fun h => h.1 == st)
+                    then e.2.map (fun h => if h.1 == st then (st, cur') else h)
+                    else e.2 ++ [(st, cur')]) else e)
+          | none => ps ++ [(tok.term, [(st, cur')])]
+        (sd, cur', ps'))
+      (sa, node, perSym)
+    (sb, perSym')) ({ s with active := [] }, [])
 
-def mainLoop (g : Grammar) (T : Table) (inp : Input) (fuel : Nat) : Nat → GState → Nat → Result
-  | 0, _, _ => .outOfFuel
-  | n + 1, s, fr =>
+/-- One round: lookaheads, the actor loop per token symbol (last symbol first), shifts. -/
+def frontier (g : Grammar) (T : Table) (inp : Input) (consume lexDis : Bool) (fuel : Nat) (s : GState) : GState :=
+  let (s1, perSym) := findLookaheads T inp consume lexDis s
+  let s2 := perSym.reverse.foldl (fun acc (e : Nat × List (Nat × Nat)) =>
+    let acc1 := { acc with active := e.2, forActor := (e.2.map (·.2)).reverse, traversed := [] }
+    actorLoop g T fuel fuel acc1) s1
+  doShifts s2
+
+def mainLoop (g : Grammar) (T : Table) (inp : Input) (consume lexDis : Bool) (fuel : Nat) : Nat → GState → Result
+  | 0, _ => .outOfFuel
+  | n + 1, s =>
     if s.crash then .crash else
+    if s.orderSens then .orderSensitive else
     if s.active.isEmpty then (if s.accepted.isEmpty then .syntaxError else .forest s)
-    else match frontier g T inp fuel s fr with
-      | none => .lexAmbiguous
-      | some s' => mainLoop g T inp fuel n s' (fr + 1)
+    else mainLoop g T inp consume lexDis fuel n (frontier g T inp consume lexDis fuel s)
 
-def parseGLR (g : Grammar) (T : Table) (inp : Input) (fuel : Nat) : Result :=
-  mainLoop g T inp fuel fuel
-    { nodes := #[{ st := 0, fr := 0, pos := 0 }], active := [(0, 0)] } 1
+def parseGLR (g : Grammar) (T : Table) (inp : Input) (consume lexDis : Bool) (fuel : Nat) : Result :=
+  mainLoop g T inp consume lexDis fuel fuel { nodes := #[{ st := 0, fr := 0, pos := 0 }], active := [(0, 0)] }
 
-/-- The packed alternatives reachable from the accepted heads:
+/-- The packed alternatives of the forest: `Forest.__init__` merges the links of all accepted heads
+into the last one (whose key the root alternatives get); below it
 (symbol, start, end) of the link, production, (symbol, start, end) of the children. -/
 def reachableAlts (T : Table) (s : GState) (fuel : Nat) :
     List ((Sym × Nat × Nat) × Nat × List (Sym × Nat × Nat)) :=
   let key := fun (lid : Nat) => let l := s.link lid; (T.sym (s.node l.head).st, l.s, l.e)
+  let altsOf := fun (k : Sym × Nat × Nat) (lid : Nat) => (s.link lid).poss.filterMap (fun ps =>
+    match ps with
+    | .nonterm p kids => some (k, p, kids.map key)
+    | .term _ _ _ => none)
+  let kidsOf := fun (lid : Nat) => (s.link lid).poss.flatMap (fun ps =>
+    match ps with
+    | .nonterm _ kids => kids
+    | .term _ _ _ => [])
   let rec go : Nat → List Nat → List Nat → List ((Sym × Nat × Nat) × Nat × List (Sym × Nat × Nat)) →
       List ((Sym × Nat × Nat) × Nat × List (Sym × Nat × Nat))
     | 0, _, _, out => out
     | _ + 1, [], _, out => out
     | f + 1, lid :: todo, seen, out =>
       if seen.contains lid then go f todo seen out else
-      let alts := (s.link lid).poss.filterMap (fun ps =>
-        match ps with
-        | .nonterm p kids => some (key lid, p, kids.map key)
-        | .term _ _ _ => none)
-      let kids := (s.link lid).poss.flatMap (fun ps =>
-        match ps with
-        | .nonterm _ kids => kids
-        | .term _ _ _ => [])
-      go f (kids ++ todo) (lid :: seen) (alts ++ out)
-  go fuel (s.accepted.flatMap s.parents) [] []
+      go f (kidsOf lid ++ todo) (lid :: seen) (altsOf (key lid) lid ++ out)
+  let results := s.accepted.flatMap s.parents
+  match results.getLast? with
+  | none => []
+  | some r =>
+    let rootAlts := results.flatMap (altsOf (key r))
+    go fuel (results.flatMap kidsOf) [] rootAlts
 
 end GLR
 end Pg
